@@ -21,4 +21,7 @@ pub enum Error {
     /// An unexpected RPSL object type was received.
     #[error("unexpected RPSL object {0}")]
     RpslObjectClass(RpslObject),
+    /// The expression uses a construct that cannot be resolved to a set of prefixes.
+    #[error("unsupported RPSL construct '{0}'")]
+    Unsupported(&'static str),
 }
